@@ -363,6 +363,10 @@ type Block struct {
 	// are addressed by hash, so later checks of the same root only need to re-traverse (TraverseRoot).
 	DataRoots [][]byte
 	Compared  bool
+
+	// LeakShape: inside this block an account had a storage write, was then removed, and was re-created with a
+	// storage write (see C09's garbage shape key)
+	LeakShape bool
 }
 
 func cloneAccts(in map[string]*Acct) map[string]*Acct {
@@ -481,6 +485,9 @@ func (w *World) Commit(rng *vk.Rand, initial bool, restore *Block) (*Block, erro
 	if initial {
 		nMut = 8
 	}
+	storTouched := map[string]bool{}  // accounts with a storage write in this block
+	removedDirty := map[string]bool{} // ... that were removed afterwards
+	leakShape := false
 	for j := 0; j < nMut; j++ {
 		ai := rng.Intn(len(Addrs))
 		a := Addrs[ai]
@@ -489,6 +496,9 @@ func (w *World) Commit(rng *vk.Rand, initial bool, restore *Block) (*Block, erro
 			jl := adb.JournalLen()
 			if errR := adb.RemoveAccount(a); errR == nil {
 				delete(nb, string(a))
+				if storTouched[string(a)] {
+					removedDirty[string(a)] = true
+				}
 				desc = append(desc, fmt.Sprintf("rm A%d", ai))
 				w.Counts["acct_remove"]++
 			} else {
@@ -540,6 +550,10 @@ func (w *World) Commit(rng *vk.Rand, initial bool, restore *Block) (*Block, erro
 			if err = ua.DataTrieTracker().SaveKeyValue([]byte(k), []byte(v)); err != nil {
 				return nil, err
 			}
+			storTouched[string(a)] = true
+			if removedDirty[string(a)] {
+				leakShape = true
+			}
 			if v == "" {
 				delete(m.Stor, k)
 				w.Counts["slot_delete"]++
@@ -578,6 +592,10 @@ func (w *World) Commit(rng *vk.Rand, initial bool, restore *Block) (*Block, erro
 			if rng.Chance(1, 3) {
 				tmp = ""
 			}
+			storTouched[string(a)] = true
+			if removedDirty[string(a)] {
+				leakShape = true
+			}
 			if err = w.writeSlot(a, m, k, tmp); err != nil {
 				return nil, err
 			}
@@ -612,6 +630,9 @@ func (w *World) Commit(rng *vk.Rand, initial bool, restore *Block) (*Block, erro
 		}
 		if len(cands) > 0 {
 			cd := cands[rng.Intn(len(cands))]
+			if removedDirty[string(Addrs[cd.ai])] {
+				leakShape = true
+			}
 			if err = w.writeSlot(Addrs[cd.ai], nb[string(Addrs[cd.ai])], cd.k, cd.v); err != nil {
 				return nil, err
 			}
@@ -623,7 +644,10 @@ func (w *World) Commit(rng *vk.Rand, initial bool, restore *Block) (*Block, erro
 	if err != nil {
 		return nil, err
 	}
-	b := &Block{Height: w.height, Root: cp(root), Accts: nb, Desc: strings.Join(desc, "; ")}
+	b := &Block{Height: w.height, Root: cp(root), Accts: nb, Desc: strings.Join(desc, "; "), LeakShape: leakShape}
+	if leakShape {
+		w.Counts["blocks_with_storage_change+remove+recreate"]++
+	}
 	b.Hdr = &block.Header{Nonce: w.height, Round: w.height, RootHash: cp(root)}
 	w.height = b.Height + 1
 	w.Chain = append(w.Chain, b)
@@ -638,6 +662,7 @@ type ScriptOp struct {
 	SetCode *string // nil = leave the code alone
 	Key     string  // "" = no slot write
 	Val     string  // "" deletes the slot
+	Remove  bool    // remove the account instead
 }
 
 // CommitScript commits a block made of exactly the given mutations (plus the counter bump)
@@ -659,6 +684,14 @@ func (w *World) CommitScript(ops []ScriptOp) (*Block, error) {
 	nb[string(CounterAddr)].Nonce++
 	for _, o := range ops {
 		a := Addrs[o.Addr]
+		if o.Remove {
+			if errR := adb.RemoveAccount(a); errR != nil {
+				return nil, errR
+			}
+			delete(nb, string(a))
+			desc = append(desc, fmt.Sprintf("rm A%d", o.Addr))
+			continue
+		}
 		ua, errL := w.loadUser(a)
 		if errL != nil {
 			return nil, errL
